@@ -2,6 +2,9 @@ package main
 
 import (
 	"fmt"
+	"os"
+	"regexp"
+	"strconv"
 	"strings"
 	"time"
 )
@@ -40,11 +43,42 @@ func cowPublication(b string) bool {
 	}
 	lines := strings.Split(rest, "\n")
 	for k, l := range lines {
-		if strings.Contains(l, "runtime.mapassign") && k+2 < len(lines) {
-			return strings.Contains(lines[k+2], "server.(*DsManager).DeleteDataset()")
+		if strings.Contains(l, "runtime.mapassign") && k+3 < len(lines) {
+			if !strings.Contains(lines[k+2], "server.(*DsManager).DeleteDataset()") {
+				return false
+			}
+			// ... and only while the assignment at that source line really goes into a local (private) map:
+			// an insert into the shared map itself (x.y.deletedDatasets[id] = true) is the crash-capable kind
+			return assignsIntoLocalMap(strings.TrimSpace(lines[k+3]))
 		}
 	}
 	return false
+}
+
+var localMapAssign = regexp.MustCompile(`^\s*[A-Za-z_][A-Za-z0-9_]*\[[^\]]*\]\s*=[^=]`)
+
+// assignsIntoLocalMap reads the source line named by a race-report frame ("/path/file.go:123 +0x..").
+func assignsIntoLocalMap(frame string) bool {
+	if i := strings.Index(frame, " "); i > 0 {
+		frame = frame[:i]
+	}
+	i := strings.LastIndex(frame, ":")
+	if i < 0 {
+		return false
+	}
+	n, err := strconv.Atoi(frame[i+1:])
+	if err != nil || n < 1 {
+		return false
+	}
+	b, err := os.ReadFile(frame[:i])
+	if err != nil {
+		return false
+	}
+	src := strings.Split(string(b), "\n")
+	if n > len(src) {
+		return false
+	}
+	return localMapAssign.MatchString(src[n-1])
 }
 
 // raceSite names the outermost datahub functions of both stacks.
@@ -80,7 +114,11 @@ func init() {
 			"race blocks that do not involve a runtime map access are counted in the evidence, not judged"},
 		Stages: func(tier string) []Stage {
 			mk := func(name string, gmp, children, cases int, race bool) Stage {
-				return Stage{Name: name, Scenario: "c05conc", Args: "props=C05", Children: children, Cases: cases, Race: race, GOMAXPROCS: gmp, Env: []string{c05Hooks}, Timeout: 20 * time.Minute}
+				args := "props=C05"
+				if race {
+					args += ",churn=1" // scratch datasets created and deleted all the time while readers look entities up
+				}
+				return Stage{Name: name, Scenario: "c05conc", Args: args, Children: children, Cases: cases, Race: race, GOMAXPROCS: gmp, Env: []string{c05Hooks}, Timeout: 20 * time.Minute}
 			}
 			if tier == "thorough" {
 				return []Stage{mk("g16", 16, 16, 20, false), mk("g4", 4, 16, 20, false), mk("g2", 2, 16, 20, false), mk("race", 8, 12, 6, true), {Name: "bulk", Scenario: "sdbulk", Args: "props=C05,huge=1", Children: 4, Cases: 2, Timeout: 10 * time.Minute}}
